@@ -1421,6 +1421,12 @@ package stackage
 //@ ensures[C10:remove.atomic] ok ==> ulen(r) == acq(ulen(r)) - 1 && (exists t :: 1 <= t && t <= acq(ulen(r)) && slice == acq(slot(r, t)) && (forall k :: 0 <= k && k < t ==> slot(r, k) == acq(slot(r, k))) && (forall k :: t <= k && k <= ulen(r) ==> slot(r, k) == acq(slot(r, k + 1))))
 //@ ensures[C10:remove.unchanged] !ok ==> ulen(r) == acq(ulen(r)) && (forall k :: 0 <= k && k <= ulen(r) ==> slot(r, k) == acq(slot(r, k)))
 //@ modifies Cell_stack[r], Mem_Val, F_nodeConfig_ldr[cfgOf(r)]
+//@ loop 1 invariant 1 <= i && i <= len(hdr(r)) && hdr(r) == acq(hdr(r)) && cfgOf(r) == cf
+//@ loop 1 invariant G_held[F_nodeConfig_mtx[cf]] && F_nodeConfig_mtx[cf] == old(F_nodeConfig_mtx[cf]) && F_nodeConfig_mtx[cf] != nil
+//@ loop 1 invariant len(contents) == (i - 1) - ite(index < i, 1, 0)
+//@ loop 1 invariant forall q :: off(contents) <= q && q < off(contents) + len(contents) ==> cell(contents, q) == acq(slot(r, 1 + (q - off(contents)) + ite((q - off(contents)) + 1 >= index, 1, 0)))
+//@ loop 1 invariant arr(contents) == 0 || arr(contents) >= pre(alloc)
+//@ loop 1 invariant forall a :: 0 <= a && a < pre(alloc) ==> Mem_Val[a] == pre(Mem_Val[a])
 
 //@ func (*stack).insert @lock
 //@ tags C10
@@ -1473,7 +1479,7 @@ package stackage
 //@ func (*stack).push @lock
 //@ tags C10
 //@ safety C10
-//@ requires wf(r) && F_nodeConfig_mtx[cfgOf(r)] != nil && okslice(x, alloc) && F_nodeConfig_ppf[cfgOf(r)] == nil && len(x) == 1
+//@ requires wf(r) && F_nodeConfig_mtx[cfgOf(r)] != nil && okslice(x, alloc) && F_nodeConfig_ppf[cfgOf(r)] == nil && len(x) == 1 && arr(x) != arr(hdr(r))
 //@ let cf := cfgOf(r)
 //@ let nn := bit(F_nodeConfig_opt[cf], 0x0100)
 //@ let cp := F_nodeConfig_cap[cf]
